@@ -2,12 +2,15 @@
 (* Ordering rulebooks for the patching catalogue: OrdCatalog[k] is a sequence of alternative ordering rulebooks for patching
    entry k.  Sibling rules have pairwise disjoint languages (at every depth, inherited %global entries included). *)
 EXTENDS RuleCatalog, Orderer
-O(pat, kids) == [pat |-> pat, kids |-> kids, glob |-> FALSE, orev |-> FALSE]
-OG(pat) == [pat |-> pat, kids |-> <<>>, glob |-> TRUE, orev |-> FALSE]
-OR(pat) == [pat |-> pat, kids |-> <<>>, glob |-> FALSE, orev |-> TRUE]
+O(pat, kids) == [pat |-> pat, kids |-> kids, glob |-> FALSE, orev |-> FALSE, scope |-> ""]
+OG(pat) == [pat |-> pat, kids |-> <<>>, glob |-> TRUE, orev |-> FALSE, scope |-> ""]
+OR(pat) == [pat |-> pat, kids |-> <<>>, glob |-> FALSE, orev |-> TRUE, scope |-> ""]
+OS(pat) == [pat |-> pat, kids |-> <<>>, glob |-> FALSE, orev |-> FALSE, scope |-> "patch"]      \* %scope=patch
 OrdCatalog == <<
   \* flat: c first, then a, b; removal of m pinned between them; PrefixX unmentioned
-  << << O(<<T("c"), TT>>, <<>>), OR(<<T(Prefix), T("m"), TT>>), O(<<T(PrefixX), ST>>, <<>>), O(<<T("a"), ST>>, <<>>), O(<<T("b")>>, <<>>) >> >>,
+  << << O(<<T("c"), TT>>, <<>>), OR(<<T(Prefix), T("m"), TT>>), O(<<T(PrefixX), ST>>, <<>>), O(<<T("a"), ST>>, <<>>), O(<<T("b")>>, <<>>) >>,
+     \* b first, but only when a patch is ordered: for order_config `b` is a row no rule mentions
+     << OS(<<T("b")>>), O(<<T("c"), TT>>, <<>>), O(<<T("a"), ST>>, <<>>) >> >>,
   \* nest: blk before a; inside: y, sub{z}, x
   << << O(<<T("blk"), ST>>, << O(<<T("y")>>, <<>>), O(<<T("sub"), ST>>, << O(<<T("z"), ST>>, <<>>) >>), O(<<T("x"), ST>>, <<>>) >>), O(<<T("a"), ST>>, <<>>) >> >>,
   \* logics: p, s, i, b
